@@ -532,13 +532,14 @@ def loc_href(loc, name):
 
 
 def content_rules(kind, name):
-    """(charset, rules) of the sheet `name` for a content kind; every URL carries the sheet name"""
+    """(charset, rules) of the sheet `name` for a content kind; every URL but the shared one of the default content carries the sheet name"""
 
     def style(u, sel=name):
         return ['style', sel, [['background', [['u', u]]]]]
 
     if kind == 'rel':
-        return None, [style(f'img/{name}.png')]
+        # the second reference has the same text in every sheet (and a different meaning in every directory)
+        return None, [style(f'img/{name}.png'), style('img/shared.png', name + 's')]
     if kind == 'dotdot':
         return None, [style(f'../{name}.png')]
     if kind == 'dotdot2':
